@@ -104,6 +104,27 @@ fn g_authdata(src: &mut Src, obs: &mut Obs) -> CaseResult {
         .serialize()
     };
     let flavour = if mc { "make_credential" } else { "get_assertion" };
+    let again = if mc {
+        let ext = types::build_mc_ext(&ext_model).map_err(|e| Fail::new("C07:harness", e, json!({})))?;
+        ctap2::make_credential::AuthenticatorData {
+            rp_id_hash: &rp_hash,
+            flags,
+            sign_count: count,
+            attested_credential_data: if att {
+                Some(ctap2::make_credential::AttestedCredentialData { aaguid: &aaguid, credential_id: &id, credential_public_key: &key })
+            } else {
+                None
+            },
+            extensions: if ext_present { Some(ext) } else { None },
+        }
+        .serialize()
+    } else {
+        let ext = types::build_ga_ext_out(&ext_model).map_err(|e| Fail::new("C07:harness", e, json!({})))?;
+        ctap2::get_assertion::AuthenticatorData { rp_id_hash: &rp_hash, flags, sign_count: count, attested_credential_data: None, extensions: if ext_present { Some(ext) } else { None } }.serialize()
+    };
+    if again != got {
+        return Err(Fail::new(format!("C07:{}:not-deterministic", flavour), "serialising an equal value twice gives different results".to_string(), json!({})));
+    }
     obs.labelf(format!("flavour:{}", flavour));
     obs.labelf(format!("flags:{:02x}", want_flags));
     if att {
@@ -251,7 +272,7 @@ pub fn run(ctx: &mut Ctx) {
     if ctx.too_many() {
         return;
     }
-    ctx.random(&G_AD, &[], ctx.t(40_000, 2_000_000), 120);
+    ctx.random(&G_AD, &[], ctx.t(150_000, 2_000_000), 120);
     ctx.require(&[
         "flavour:make_credential", "flavour:get_assertion", "attested-present", "extensions-present", "frontier:fits-within-2",
         "frontier:overflow-within-2", "id>65535", "expect:error", "expect:bytes", "flags:00", "flags:c5",
